@@ -26,6 +26,14 @@ Full statement of the property vs. what is proved: "RunJobs returns" is proved a
 into "the call returns" needs the one assumption that the Go scheduler keeps running some runnable
 goroutine, and that job functions / `resFunc` return (a job function may wait for its ctx).
 
+Panicking job functions (since "fix: worker group: a panicking work item becomes an error result"):
+`runWorkItem` recovers the panic into an error result and `worker.Do` continues exactly as after a
+normal return, so the model's step `wRun j` stands for both outcomes and every theorem below covers
+runs with panicking jobs; `cfg.panics` only labels the observation (`spec_caller_of_returned`: the
+error result of every job that panicked is delivered, exactly once, and no other job yields one).
+`workers_le_max` is the statement a double put-back of a worker would break (`active = idle + busy`,
+`dropped = 0`: each execution returns its worker exactly once).
+
 PARTIAL by nature — what is assumed, not proved:
 * the Go scheduler eventually runs some runnable goroutine (nothing more: no
   fairness between goroutines or between ready `select` cases is needed,
@@ -186,7 +194,8 @@ theorem quiescent_after_stop_nothing_left {cfg : Cfg} (hfix : cfg.fixed = true) 
 /-- both variants: in every reachable state the observation of a caller whose `RunJobs` has returned
 satisfies every per-caller conjunct of `Spec.C14` (exactly-once, results only for jobs that ran, every
 job that ran delivered, accepted jobs a prefix, nothing after the return; all jobs run when neither
-`Stop` nor a cancellation happened; no job skipped without `Stop`) -/
+`Stop` nor a cancellation happened; no job skipped without `Stop`; the error result of a recovered
+panic delivered for exactly the jobs whose function panicked) -/
 theorem spec_caller_of_returned {cfg : Cfg} {s : State} (h : Reach cfg s) {g : Nat}
     (hret : (s.callers g).sub = .returned) (cs : Case)
     (hq : cs.quiet = true → s.stopped = false ∧ (s.callers g).cancelled = false)
@@ -283,6 +292,12 @@ example : Reach cfgOne finalOne ∧ ¬ CanStep cfgOne finalOne ∧ finalOne.stop
     | none => simp [h] at this
     | some s => simp
   · apply final_quiescent <;> decide
+
+/-- the same run when the job function panics: the one delivered result is the panic's error result -/
+example :
+    let c := observeCaller { cfgOne with panics := fun _ => true } finalOne 0
+    c.panicked = [0] ∧ c.errDelivered = [0] ∧ c.delivered = [0] ∧
+    callerOk { workers := 1, quiet := false, noStop := false } c = true := by decide
 
 /-- the pre-fix witness is an actual schedule of the model -/
 example : (runSched cfgOld (init cfgOld) schedOld).isSome = true := by decide
